@@ -204,6 +204,8 @@ func initArrayList() {
 				if value.Truthy(isEqual) {
 					self.RemoveAt(i)
 					removed = true
+					// the next element has moved into slot i
+					i--
 				}
 			}
 
